@@ -11,7 +11,7 @@ ASSUMPTIONS = [
     'component objects, engines, experiment/graph containers and rx delivery are fakes (sched_driver.py); the '
     'Controller object and all of its scheduling/termination methods are the real code',
     'postMortemCheck is atomic (the stability waits inside _restartComponent are not interleaved with other callbacks)',
-    'no DoWhile placeholders, memoization, migration, optimizer, sleeping, stage-in failures',
+    'no DoWhile placeholders, memoization, migration, optimizer, stage-in failures (Controller.sleep/wake_up ARE modelled and driven)',
 ]
 
 
